@@ -169,33 +169,39 @@ def ensure_generic_built():
 
 
 def gen_tables(work):
-    """translate the working tree's tables -> work/Tables.v and compile (cached by content hash)"""
+    """translate the working tree's tables -> work/Tables.v, compile, and VALIDATE the translation: the canonical dump of the
+    value the kernel read must hash like the dump tools/table_digest.py computes from the runtime objects (cached by content)"""
     out = os.path.join(work, "Tables.v")
+    dig = os.path.join(work, "TablesDigest.v")
     p = subprocess.run([PY, os.path.join(VERIF, "tools", "gen_tables.py"), out], env=impl_env(), capture_output=True, text=True, timeout=120)
     if p.returncode != 0:
         return False, "translator failed: " + p.stdout[-2000:] + p.stderr[-2000:]
-    h = hashlib.sha256(open(out, "rb").read()).hexdigest()
-    # key the cache on the generated text and on the compiled types it depends on
-    dep = os.path.join(COQDIR, "Model", "Types.vo")
-    dh = hashlib.sha256(open(dep, "rb").read()).hexdigest()[:16] if os.path.exists(dep) else "none"
+    p2 = subprocess.run([PY, os.path.join(VERIF, "tools", "table_digest.py"), dig], env=impl_env(), capture_output=True, text=True, timeout=120)
+    if p2.returncode != 0:
+        return False, "table digest failed: " + p2.stdout[-2000:] + p2.stderr[-2000:]
+    h = hashlib.sha256(open(out, "rb").read() + open(dig, "rb").read()).hexdigest()
+    deps = [os.path.join(COQDIR, "Model", "Types.vo"), os.path.join(COQDIR, "Corr", "TableDump.vo")]
+    dh = hashlib.sha256(b"".join(open(d, "rb").read() for d in deps if os.path.exists(d))).hexdigest()[:16]
     cache = os.path.join(VERIF, "work", "tables-cache", h[:32] + "-" + dh)
-    if os.path.exists(os.path.join(cache, "Tables.vo")):
-        for f in ("Tables.vo", "Tables.glob"):
-            if os.path.exists(os.path.join(cache, f)):
-                shutil.copy(os.path.join(cache, f), os.path.join(work, f))
-        return True, "tables %s (cached)" % h[:12]
+    if os.path.exists(os.path.join(cache, "Tables.vo")) and os.path.exists(os.path.join(cache, "digest.ok")):
+        shutil.copy(os.path.join(cache, "Tables.vo"), os.path.join(work, "Tables.vo"))
+        return True, "tables %s (cached, translation validated)" % h[:12]
     ok, log, secs = coqc(out, work, 300)
     if not ok:
         return False, "Tables.v does not compile:\n" + log[-3000:]
+    ok2, log2, secs2 = coqc(dig, work, 600)
+    if not ok2:
+        return False, "translation validation failed: the value Coq read from Tables.v does not dump like pyrtcm's runtime tables\n" + log2[-2000:]
     try:
         os.makedirs(cache, exist_ok=True)
         tmp = tempfile.mkdtemp(dir=os.path.dirname(cache))
         shutil.copy(os.path.join(work, "Tables.vo"), os.path.join(tmp, "Tables.vo"))
         os.replace(os.path.join(tmp, "Tables.vo"), os.path.join(cache, "Tables.vo"))
+        open(os.path.join(cache, "digest.ok"), "w").write(p2.stdout)
         shutil.rmtree(tmp, ignore_errors=True)
     except OSError:
         pass
-    return True, "tables %s (%.1fs)" % (h[:12], secs)
+    return True, "tables %s (%.1fs + validation %.1fs)" % (h[:12], secs, secs2)
 
 
 # ---------------------------------------------------------------- evidence / replay
